@@ -417,6 +417,27 @@ public:
       } else if (auto *IV = dyn_cast<ImplicitValueInitExpr>(E)) {
         J.attribute("k", "zeroinit");
         J.attribute("t", ty(IV->getType()));
+      } else if (auto *LE = dyn_cast<LambdaExpr>(E)) {
+        // a closure: its call operator is emitted as a function of its own (file-local by nature)
+        J.attribute("k", "lambda");
+        J.attribute("t", ty(LE->getType()));
+        if (const CXXMethodDecl *Op = LE->getCallOperator()) {
+          J.attribute("cusr", usr(Op));
+          if (SeenLambdas.insert(Op).second) Fns.push_back(Op);
+        }
+        J.attributeArray("captures", [&] {
+          for (const LambdaCapture &C : LE->captures()) {
+            J.object([&] {
+              J.attribute("byref", C.getCaptureKind() == LCK_ByRef);
+              if (C.capturesVariable()) {
+                J.attribute("n", C.getCapturedVar()->getNameAsString());
+                J.attribute("id", idOf(C.getCapturedVar()));
+              } else if (C.capturesThis()) {
+                J.attribute("this", true);
+              }
+            });
+          }
+        });
       } else {
         J.attribute("k", "other");
         J.attribute("cls", E->getStmtClassName());
@@ -574,6 +595,7 @@ public:
   // ---------- declarations ----------
   std::vector<const VarDecl *> PendingStatics;
   std::vector<const FunctionDecl *> Fns;
+  llvm::SmallPtrSet<const Decl *, 8> SeenLambdas;
   std::vector<const VarDecl *> Vars;
   std::vector<const RecordDecl *> Recs;
   std::vector<const EnumDecl *> Enums;
@@ -637,6 +659,8 @@ public:
       if (F->isVariadic()) J.attribute("variadic", true);
       if (F->hasAttr<NoInlineAttr>()) J.attribute("noinline", true);
       if (F->isTemplateInstantiation()) J.attribute("instantiation", true);
+      if (auto *M0 = dyn_cast<CXXMethodDecl>(F))
+        if (M0->getParent()->isLambda()) J.attribute("lambda", true);
       if (auto *M = dyn_cast<CXXMethodDecl>(F)) {
         J.attribute("record", qname(M->getParent()));
         if (M->isVirtual()) J.attribute("virtual", true);
